@@ -124,8 +124,11 @@ def gen_case(rng):
         if name_only:
             # the feature NAME of a 1.0 descriptor file becomes a folder name on upgrade: aim path payloads at it
             kind, payload = rng.choice([pp for pp in PAYLOADS if pp[0] == 'path'])
+        json_model = (not name_only) and rng.random() < 0.3
+        if json_model:
+            kind, payload = rng.choice([pp for pp in PAYLOADS if pp[0] in ('path', 'expr')])
         return {'path': 'upgrade', 'base': c, 'pick': rng.randrange(10 ** 6), 'payload': payload, 'pclass': kind,
-                'name_only': name_only}
+                'name_only': name_only, 'json_model': json_model}
     opts = kgen.Opts(p_part=0.8, id_pool=3, fancy_ids=False, ts_style='small', max_rows=3, image_pool=4, dtypes=['float32'])
     dtype_only = rng.random() < 0.35
     if rng.random() < 0.2:
@@ -228,6 +231,26 @@ def mutate_field(root, case, canary):
         p = os.path.join(root, rel)
         lines = open(p).read().split('\n')
         data_idx = [i for i, l in enumerate(lines) if l.strip() and not l.startswith('#')]
+    jcfg = [f for f in cfg if f.split('/')[-1] in ('keypoints.txt', 'global_features.txt')]
+    if case.get('json_model') and jcfg:
+        # the crafted text stands in the extraction-parameters file saved beside the features (the model name an extractor wrote),
+        # and the feature name of the descriptor file is blank: whatever the upgrade takes from there is file content too
+        rel = rng.choice(jcfg)
+        p = os.path.join(root, rel)
+        lines = open(p).read().split('\n')
+        data_idx = [i for i, l in enumerate(lines) if l.strip() and not l.startswith('#')]
+        jname = 'extract_local_features.json' if rel.endswith('keypoints.txt') else 'extract_global_features.json'
+        with open(os.path.join(os.path.dirname(p), jname), 'w') as f:
+            json.dump({'model': payload, 'model_name': payload, 'top_k': 5000}, f)
+        if data_idx:
+            i = data_idx[0]
+            fields = [f.strip() for f in lines[i].split(',')]
+            fields[0] = ''
+            lines[i] = ', '.join(fields)
+            with open(p, 'w') as f:
+                f.write('\n'.join(lines))
+            _written[0] = ''
+            return (rel, i, 0, False)
     if not data_idx or (case['payload'].startswith('# kapture') and (case.get('dtype_only') or rng.random() < 0.7)):
         lines[0] = payload if payload.startswith('#') else '# kapture format: ' + payload
         where = (rel, 0, -1, False)
